@@ -145,6 +145,10 @@ MISMATCH = [  # (how, expected bits or None for rejection)
     ("pack('bytes:1', b'a')", lambda b: b.pack('bytes:1', b'a'), '01100001'),
     ("Bits(hex='abc', length=8)", lambda b: b.Bits(hex='abc', length=8), None),
     ("Bits(hex8='abc')", lambda b: b.Bits(hex8='abc'), None),
+    ("Bits(uint=300, int=5, length=8)", lambda b: b.Bits(uint=300, int=5, length=8), None),
+    ("BitArray(hex='a', bin='1')", lambda b: b.BitArray(hex='a', bin='1'), None),
+    ("Bits('0x1', uint=300, length=8)", lambda b: b.Bits('0x1', uint=300), None),
+    ("BitStream(uint=3, length=8, pos=2)", lambda b: b.BitStream(uint=3, length=8, pos=2), '00000011'),
     ("Bits(hex='ab', length=0)", lambda b: b.Bits(hex='ab', length=0), None),
     ("BitArray(bin='1', length=0)", lambda b: b.BitArray(bin='1', length=0), None),
     ("Bits(hex0='ab')", lambda b: b.Bits(hex0='ab'), None),
